@@ -143,7 +143,8 @@ def write_replay(pid: str, name: str, payload: Dict[str, Any]) -> str:
 
 
 def write_evidence(pid: str, ev: Dict[str, Any]) -> None:
-    d = os.path.join(VERIF, 'evidence')
+    # runs against another checkout (seeded changes) must not overwrite the evidence of the tree under /repo
+    d = os.environ.get('VERIF_EVIDENCE_DIR') or os.path.join(VERIF, 'evidence')
     os.makedirs(d, exist_ok=True)
     tmp = os.path.join(d, pid + '.json.tmp')
     with open(tmp, 'w') as f:
